@@ -8,7 +8,8 @@
     no ACL installed.  A script is any list of cache operations (updates,
     deletes, atomic containers, target removal), the Subscribe call and poll
     triggers; [run] yields, per step, the group of responses sent. *)
-From Gnmi Require Import Base.Prelude CTree.CTreeModel Subscribe.SubModel Subscribe.SubProofs.
+From Gnmi Require Import Base.Prelude CTree.CTreeModel Subscribe.SubModel Subscribe.SubProofs
+  Subscribe.C05Check Subscribe.C07Check Subscribe.SubCheckProofs.
 
 Theorem C07_unauthenticated_if_no_rpcacl :
   forall allow rq c pre post,
@@ -56,3 +57,22 @@ Theorem C07_no_acl_sends_everything :
   forall allow l, send_filter allow NoACL l = l.
 Proof. exact send_filter_noacl. Qed.
 Print Assumptions C07_no_acl_sends_everything.
+
+(** soundness of the executable specification applied to the implementation's
+    observations (C07Check.kp_c07) *)
+Theorem C07_kp_sound :
+  forall cs tbl u,
+    c_acl cs = Some tbl -> c_user cs = Some u -> has_sub_step (c_ops cs) = true ->
+    kp_c07 cs = [] ->
+    forall ob n d, In ob (c_obs cs) -> In (OUpd n d) (ob_group ob) ->
+                   allow_of tbl u (g_target (n_prefix n)) = true.
+Proof. exact kp_c07_sound. Qed.
+Print Assumptions C07_kp_sound.
+
+Theorem C07_kp_sound_unauthenticated :
+  forall cs tbl,
+    c_acl cs = Some tbl -> c_user cs = None -> has_sub_step (c_ops cs) = true ->
+    kp_c07 cs = [] ->
+    status_eqb (c_status cs) SUnauthenticated = true /\ groups_empty (c_obs cs) = true.
+Proof. exact kp_c07_sound_unauthenticated. Qed.
+Print Assumptions C07_kp_sound_unauthenticated.
